@@ -426,6 +426,7 @@ pub fn gen_op(rng: &mut Rng, spec: &TreeSpec) -> Op {
             mode: *rng.pick(&[libc::S_IFREG, libc::S_IFIFO, libc::S_IFCHR, libc::S_IFBLK])
                 | *rng.pick(&[0o644, 0o600, 0o4755]),
             dev: *rng.pick(&[0, 0x103, 0x501]),
+            ptype: if rng.chance(1, 4) { *rng.pick(&[libc::S_IFREG, libc::S_IFDIR, libc::S_IFBLK, libc::S_IFCHR, libc::S_IFIFO, libc::S_IFLNK]) } else { 0 },
         },
         52..=56 => Op::Symlink {
             path: create_path(rng, spec),
